@@ -8,13 +8,16 @@ package main
 //   c08 orig x<envelope text>               -> one observation (always with detail)
 //   c08 sweep x<original text> ( x<edited text> ... ) <detail 0|1>
 //                                           -> ( <observation of the original> ) ( <observation> ... )
+//   c08 extvalues ( x<extension key> ... ) -> ( ( x<code> ... ) ... )  the codes the registered definition of each extension key
+//                                              (tax.ExtensionForKey: regimes and add-ons) lists; empty for unknown keys and
+//                                              for keys validated by a pattern only
 //   c08 hashed x<envelope text>             -> ok x<json.Marshal(parsed doc)> x<canonical JSON of it> x<Envelope.Digest().Value> xalg
 //                                              the bytes the implementation's own Envelope.Digest hashes (json.Marshal of the
 //                                              document, then c14n.CanonicalJSON) next to the digest it answers for them;
 //                                              compared with Digest/Link.real_canon (wire op `c08 realcanon`) by the check
 //
 // observation = ( xparse xvalidate <structural> <same-as-original> xcalc ( xalg xval ) <same-after-calc>
-//                 ( xheadalg xheadval ) xsha(canon parsed doc) xsha(canon calculated doc)
+//                 ( xheadalg xheadval ) xsha(canon parsed doc) xsha(canon calculated doc) <Validate rewrote the document>
 //                 [ x<canon parsed doc> x<canon calculated doc> x<json.Marshal(parsed doc)> ] )
 
 import (
@@ -27,6 +30,8 @@ import (
 
 	"github.com/invopop/gobl"
 	"github.com/invopop/gobl/c14n"
+	"github.com/invopop/gobl/cbc"
+	"github.com/invopop/gobl/tax"
 )
 
 func c08ErrKind(err error) string {
@@ -76,6 +81,7 @@ func shaHex(b []byte) string {
 type c08obs struct {
 	parse, validate, calc            string
 	structural, same, sameCalc       bool
+	rewrote                          bool
 	headAlg, headVal, newAlg, newVal string
 	canon, canonCalc, raw            []byte
 }
@@ -83,7 +89,7 @@ type c08obs struct {
 func (o *c08obs) v(detail bool) V {
 	l := []V{VS(o.parse), VS(o.validate), VB(o.structural), VB(o.same), VS(o.calc),
 		VL(VS(o.newAlg), VS(o.newVal)), VB(o.sameCalc), VL(VS(o.headAlg), VS(o.headVal)),
-		VS(shaHex(o.canon)), VS(shaHex(o.canonCalc))}
+		VS(shaHex(o.canon)), VS(shaHex(o.canonCalc)), VB(o.rewrote)}
 	if detail {
 		l = append(l, VBytes(o.canon), VBytes(o.canonCalc), VBytes(o.raw))
 	}
@@ -110,13 +116,23 @@ func c08observe(text []byte, origCanon []byte) *c08obs {
 	if env.Head != nil && env.Head.Digest != nil {
 		o.headAlg, o.headVal = string(env.Head.Digest.Algorithm), env.Head.Digest.Value
 	}
-	c08guard(&o.validate, func() { o.validate = c08ErrKind(env.Validate()) })
+	// the parsed document is serialised BEFORE Validate is called: it is what the text says.  Serialised once more
+	// afterwards: a Validate that rewrites the document it is asked about (rewrote) has checked the digest of
+	// something else than the content it was given.
 	c08guard(&o.validate, func() {
 		var err error
 		o.raw, o.canon, err = canonDoc(env)
 		if err != nil {
 			o.canon = nil
 		}
+	})
+	if o.validate == "panic" {
+		return o
+	}
+	c08guard(&o.validate, func() { o.validate = c08ErrKind(env.Validate()) })
+	c08guard(&o.validate, func() {
+		_, after, err := canonDoc(env)
+		o.rewrote = err == nil && o.canon != nil && !bytes.Equal(after, o.canon)
 	})
 	o.same = origCanon != nil && o.canon != nil && bytes.Equal(o.canon, origCanon)
 	// structural: would the envelope validate if its digest were the right one?  A validation error
@@ -173,6 +189,20 @@ func c08Hashed(text []byte) []V {
 func init() {
 	register("c08", func(a []V) []V {
 		switch a[0].Str() {
+		case "extvalues":
+			res := []V{}
+			for _, k := range a[1].L {
+				vals := []V{}
+				if def := tax.ExtensionForKey(cbc.Key(k.S)); def != nil {
+					for _, d := range def.Values {
+						if d != nil && d.Code != "" {
+							vals = append(vals, VS(string(d.Code)))
+						}
+					}
+				}
+				res = append(res, V{Kind: 'l', L: vals})
+			}
+			return []V{V{Kind: 'l', L: res}}
 		case "hashed":
 			return c08Hashed(a[1].S)
 		case "envelop":
